@@ -1111,8 +1111,10 @@ class DAGExecution(BaseDAGExecution[P, RVDAG]):
         self._pre_call()
 
         # 2. Execute the scheduler
+        # the scheduler consumes the graph it is given: run on a copy so that
+        # a run that fails leaves the complete selection for the next attempt
         self.xn_dict, self.results, self.profiles = self.dag.run_subgraph(
-            self.graph, self.results, *args
+            deepcopy(self.graph), self.results, *args
         )
 
         return self._post_call()
@@ -1146,8 +1148,10 @@ class AsyncDAGExecution(BaseDAGExecution[P, RVDAG]):
         self._pre_call()
 
         # 2. Execute the scheduler
+        # the scheduler consumes the graph it is given: run on a copy so that
+        # a run that fails leaves the complete selection for the next attempt
         self.xn_dict, self.results, self.profiles = await self.dag.run_subgraph(
-            self.graph, self.results, *args
+            deepcopy(self.graph), self.results, *args
         )
 
         return self._post_call()
